@@ -414,7 +414,19 @@ impl Linter for LintGroup {
             };
 
             let chunk_chars = document.get_span_content(&chunk_span);
-            let config_hash = self.hasher_builder.hash_one(&self.config);
+            // The results depend on the configuration and on how the chunk was tokenized: the same
+            // characters are tokenized differently by different parsers (inline code in Markdown
+            // is unlintable, in plain text it is words).
+            let config_hash = {
+                let mut hasher = self.hasher_builder.build_hasher();
+                self.config.hash(&mut hasher);
+                for token in chunk {
+                    hasher.write_usize(token.span.start - chunk_span.start);
+                    hasher.write_usize(token.span.len());
+                    token.kind.hash(&mut hasher);
+                }
+                hasher.finish()
+            };
             let key = (chunk_chars.into(), config_hash);
 
             #[cfg(harper_verif)]
